@@ -95,7 +95,7 @@ def gen_case(rng, tier):
     def var(q, default, node=None, must_init=False):
         variables.append({'q': list(q), 'default': default, 'must_init': must_init,
                           'node': list(node if node is not None else addr(topo, here, tuple(q)))})
-    families = ['plain', 'plain2', 'path', 'pathjoin', 'twoports', 'leafport', 'nested', 'glob', 'globpath', 'nestedglob']
+    families = ['plain', 'plain2', 'unwired', 'path', 'pathjoin', 'twoports', 'leafport', 'nested', 'glob', 'globtuple', 'globpath', 'nestedglob']
     if depth > 0:
         families += ['up', 'up']
     chosen = [rng.choice(families) for _ in range(rng.choice([1, 2, 3]))]
@@ -106,6 +106,10 @@ def gen_case(rng, tier):
             topo[p] = ('s%d' % i,)
             var((p, 'v'), schema[p]['v']['_default'])
             var((p, 'w'), schema[p]['w']['_default'])
+        elif fam == 'unwired':
+            # a port the topology does not mention at all: wired by default to a store of the same name
+            schema[p] = {'v': leaf(nxt())}
+            var((p, 'v'), schema[p]['v']['_default'])
         elif fam == 'plain2':
             schema[p] = {'v': leaf(nxt())}
             topo[p] = ('deep%d' % i, 'er')
@@ -155,6 +159,21 @@ def gen_case(rng, tier):
             schema[p] = {'*': {'m': leaf(nxt()), 'g': leaf(nxt())}}
             topo[p] = ('agents%d' % i,)
             base = norm(here + ('agents%d' % i,))
+            gkids = rng.sample(['a1', 'a2', 'a3'], rng.choice([1, 2, 3]))
+            for kid in gkids:
+                kids_nodes.append(list(base + (kid,)))
+                var((p, kid, 'm'), schema[p]['*']['m']['_default'], base + (kid, 'm'))
+                var((p, kid, 'g'), schema[p]['*']['g']['_default'], base + (kid, 'g'))
+            if second is None and rng.random() < 0.5:
+                # a second process declares a glob port on the SAME store with another sub-variable
+                d2 = nxt()
+                second = {'schema': {'px': {'*': {'h': leaf(d2)}}}, 'topology': {'px': ['agents%d' % i]},
+                          'node': list(base + (gkids[0], 'h')), 'default': d2}
+        elif fam == 'globtuple':
+            # inside a '_path' dictionary the glob key carries its OWN tuple path: the children live elsewhere
+            schema[p] = {'*': {'m': leaf(nxt()), 'g': leaf(nxt())}}
+            topo[p] = {'_path': ('local%d' % i,), '*': ('..', 'shared%d' % i)}
+            base = norm(here + ('shared%d' % i,))
             for kid in rng.sample(['a1', 'a2', 'a3'], rng.choice([1, 2, 3])):
                 kids_nodes.append(list(base + (kid,)))
                 var((p, kid, 'm'), schema[p]['*']['m']['_default'], base + (kid, 'm'))
@@ -303,6 +322,35 @@ def composite_initial_state(case):
     extra = [k for k in flat(got) if k not in nodes and not is_process_entry(k) and flat(got)[k] != {}]
     if extra:
         fails.append('composite.initial_state() has values at %s where no port of the process is wired' % (extra[:3],))
+    if fails:
+        return fails[:3]
+    # the composite carries its own state for some nodes; a caller's override for OTHER variables of the same stores must
+    # not stick: the next plain initial_state() is the first one again
+    try:
+        own = {}
+        some = sorted(nodes)[: max(1, len(nodes) // 2)]
+        for node in some:
+            tset(own, node, 'own-%d' % nodes[node])
+        comp2 = Composite({'processes': processes, 'topology': topology, 'state': own})
+        first = copy.deepcopy(comp2.initial_state())
+        override = {}
+        for node in sorted(nodes):
+            if node not in some:
+                tset(override, node, 'override')
+        for node in some:
+            tset(override, node[:-1] + ('brand_new_sibling',), 'override')
+        comp2.initial_state({'initial_state': override})
+        second = comp2.initial_state()
+        if flat(second) != flat(first):
+            diff = [k for k in set(flat(first)) | set(flat(second)) if flat(first).get(k, KeyError) != flat(second).get(k, KeyError)]
+            fails.append('after initial_state(config with an override) the composite gives a different plain initial_state() at %s: '
+                         '%r, before %r' % (diff[:2], [flat(second).get(k, 'ABSENT') for k in diff[:2]],
+                                            [flat(first).get(k, 'ABSENT') for k in diff[:2]]))
+        for node in some:
+            if tget(comp2.state, node) != 'own-%d' % nodes[node]:
+                fails.append("the composite's own state at %s changed to %r" % (node, tget(comp2.state, node)))
+    except Exception as e:
+        fails.append('re-using the composite raised %s: %s' % (type(e).__name__, str(e)[:150]))
     return fails[:3]
 
 
